@@ -10,10 +10,22 @@ included) and cost model, every estimate and weight factor, every termination mo
 schedule: `result_iff_reachable_local`, `tree_is_reachable_set_local`, and for concrete
 configurations `Config.RestrictionLocal` = consistent adjacency + no turn-restriction model
 (`config_nopath_iff_unreachable`, `config_tree_reachable`), vertex- and edge-oriented
-(`config_edge_oriented_…`).  Calls that fail (a missing delay-table entry, a heading outside the
-turn classes, a short state vector) fail the run with their own error kind, and every theorem is
-about runs that returned a result or "no path"; no component answers "no path" itself
-(`config_no_spurious_nopath`).
+(`config_edge_oriented_…`).  Calls that fail fail the run with their own error kind, and every theorem
+is about runs that returned a result or "no path"; no component answers "no path" itself
+(`config_no_spurious_nopath`).  The failing calls: a missing delay-table entry, a heading outside the
+turn classes, a short state vector; `create_time` on a **zero length** or a **zero table speed**
+under the speed-table model (C09 demands that rejection — `Time::create` has no answer for a
+non-positive distance or speed —, but the search does not skip the edge: the error leaves
+`run_a_star`, so one zero-length edge relaxed on the way fails a query whose destination is
+reachable; example `zero_length_edge_fails_the_query` below, corpus cases of harness/src/searchprops.rs);
+and the **estimate of a vertex whose coordinates the haversine function refuses** (outside
+[-180, 180] × [-90, 90], e.g. latitude and longitude swapped): `run_a_star` asks for the estimate of
+every vertex it labels whatever the weight factor, so such a vertex fails the query with a traversal
+error for Dijkstra too, while the destination-less search (no estimate) returns its tree (model: a
+negative entry of the great-circle table is the marker "no value", `Model/Instance.lean` `estimate`;
+example `out_of_range_vertex_fails_the_query`).  `Config.WellFormedDistance` therefore carries the
+premise `gc_nonneg` (every vertex in range) — added with the marker; the vertex file is read without
+a range check, so this is a premise on the network, not a guarantee of the loader.
 
 The third clause — each tree vertex labelled with its least cost — is claimed by the property only
 "when edge costs do not depend on how the edge was reached": `Config.EdgeLocal` (additionally no
@@ -24,6 +36,15 @@ Not here: that a run *ends* — every theorem is of the form "if the run returne
 "reachable ⇒ a route is returned" holds among the outcomes result / "no path" (the premise `hres`),
 which excludes the explicit termination and the failing calls listed in
 `config_run_result_or_benign`, and the model's two schedule-replay errors.
+
+Outside every theorem (ordered fields have no +∞, NaN or overflow), tied by the correspondence run
+only, oracles silent: a tentative cost of +∞ (1e308 m at weight 10) or NaN never improves on a
+*missing* label — `tentative < Cost::INFINITY` in the code, `Lit.belowInf` in the model (constantly
+true in a field: `LawfulLit.belowInf_eq`; the IEEE test at `Float`) —, so the far end of such an edge
+stays unlabelled and a destination behind it is answered "no path" (corpus witnesses; the
+extreme-value stream of harness/src/searchprops.rs).  Modelled rather than verified — the NaN-free
+domain: the code orders costs by `OrderedFloat`'s total order (NaN greatest, NaN = NaN), the model by
+IEEE `<`; they differ only on NaN operands, which no file or JSON document can supply.
 -/
 import Compass.Proofs.SearchOpt
 import Compass.Proofs.ConfigUniform
@@ -348,6 +369,25 @@ example : ∃ r tree, delayConfig.runVertex 0 none [0, 1, 2, 3] = .ok r ∧ r.tr
     refine ⟨r, tree, rfl, ht, ?_, by simp [h4]⟩
     have := hreach 4
     simpa using this
+
+/-- a vertex out of the coordinate range (`delayConfig` with "no great-circle value" at vertex 1,
+run as Dijkstra: weight factor 0): the query 0 → 3 ends in a traversal error when vertex 1 is
+labelled — although 3 is reachable —, the destination-less search from 0 returns its tree -/
+theorem out_of_range_vertex_fails_the_query :
+    ConfigUniform.Example.errOf (({ delayConfig with gc := [0, -1, 0, 0, 0], wf := some 0 } : Config ℚ).runVertex
+      0 (some 3) [0, 1, 2, 3]) = some .traversal ∧
+    SearchRoute.Example.treeEntriesOf (({ delayConfig with gc := [], wf := some 0 } : Config ℚ).runVertex
+      0 none [0, 1, 2, 3]) [1, 3] = some [[some (0, 0), some (2, 3)]] := by
+  constructor <;> decide +kernel
+
+/-- a zero-length edge under the speed-table model (`exS`, 36 km/h everywhere, edge 7 = 1→3 of length
+0): the search that relaxes it fails with a traversal error — `create_time` refuses the zero distance,
+as C09 demands, and the search does not skip the edge — although vertex 3 is reachable -/
+theorem zero_length_edge_fails_the_query :
+    ConfigUniform.Example.errOf (({ ConfigUniform.Example.exS with
+      edges := ConfigUniform.Example.exS.edges.set 7 ⟨1, 3, 0⟩ } : Config ℚ).runVertex
+      0 (some 3) [0, 1, 2, 3]) = some .traversal := by
+  decide +kernel
 
 /-- edge-oriented on the same configuration: from edge 0 (0→1) to edge 3 (2→3) the answer is
 `[0, 1, 3]`, and the theorem gives the connecting walk 1 ⇝ 2 -/
